@@ -8,6 +8,8 @@
    lives in) and which inputs are rejected.                                  *)
 EXTENDS Naturals, FiniteSets, Sequences, SequencesExt, Json, IOUtils, TLC
 
+VARIABLE cur      \* the case under examination (one TLC state per case)
+
 SamplerTypes == {"importance", "emcee", "emcee_smc", "minipcn", "smc", "minipcn_smc", "blackjax_smc", "bogus"}
 ClassOf(t) ==
   CASE t = "importance" -> "ImportanceSampler"
@@ -49,13 +51,12 @@ EffCases == {[kind |-> "eff", form |-> "float", a |-> a, b |-> 0, ok |-> (a > 0 
 
 Cases == SamplerCases \cup FlowCases \cup EffCases
 \* every non-importance sampler gets a pre-conditioner unless the user says "none"
-DefaultPreconditioned == \A c \in SamplerCases :
+DefaultPreconditioned == \A c \in {x \in {cur} : x.kind = "sampler"} :
    (c.cls \notin {"ValueError", "ImportanceSampler"} /\ c.precond = "unset") => c.transform = "CompositeTransform"
-ASSUME DefaultPreconditioned
 ASSUME PrintT(<<"NCASES", Cardinality(Cases)>>)
 ASSUME JsonSerialize(IOEnv.OUT_FILE, [cases |-> SetToSeq(Cases), defaults |-> DefaultOptions])
-VARIABLE dummy
-Init == dummy = 0
-Next == UNCHANGED dummy
-Spec == Init /\ [][Next]_dummy
+\* one TLC state per case: the laws are state invariants evaluated on every case
+Init == cur \in Cases
+Next == UNCHANGED cur
+Spec == Init /\ [][Next]_cur
 =============================================================================
